@@ -76,6 +76,7 @@ type G struct {
 	Feat     map[string]bool
 	nAlias   int
 	CTENames []string // CTE names in scope (usable as tables)
+	SetQual  string   // qualifier a MERGE assignment target may carry (target table or alias)
 	NeedFrom int      // >0: every SELECT gets a FROM clause (a FROM-less SELECT followed by a statement-level clause is not part of the documented surface)
 }
 
@@ -146,7 +147,7 @@ func (g *G) wrap(x X, min int) []Tok {
 }
 
 var colNames = []string{"a", "b", "c", "d", "id", "name", "price", "qty", "total", "created_at", "x1", "col_2"}
-var tblNames = []string{"t", "u", "orders", "users", "items", "sales", "emp", "dept"}
+var tblNames = []string{"t", "u", "orders", "users", "items", "sales", "emp", "dept", "_migrations", "users_with_roles", "t_with_1_joins"}
 var fnNames = []string{"f", "COUNT", "SUM", "MAX", "COALESCE", "lower", "abs", "ROUND", "concat", "my_func"}
 var typeNames = []string{"INT", "TEXT", "VARCHAR(10)", "NUMERIC(10,2)", "BIGINT", "DATE", "BOOLEAN"}
 
